@@ -251,7 +251,10 @@ def _c09(tier, seed):
         runs += ["H_C09_results(2,0,3)", "H_C09_results(2,2,3)", "H_C09_results(2,1,2)"]
     if not q:
         runs += ["H_C09_results(3,1,1)", "H_C09_results(3,2,0)", "H_C09_results(3,2,1)"]
-    return [dict(name="rpc", pkg=".", harness=NET_HARNESS + ["harness/root/c09.go"], runs=runs, solver="z3", walllimit=600, timeout=3000, replay="schedule",
+    # a call that declares a vector result still receives its typed slice when its request had to be re-sent
+    # (salt rotation in between): the harness is shared with C11
+    runs += ["H_C11_rotation_hinted(1)"] + ([] if q else ["H_C11_rotation_hinted(2)"])
+    return [dict(name="rpc", pkg=".", harness=NET_HARNESS + ["harness/root/c09.go", "harness/root/c16.go", "harness/root/c11.go"], runs=runs, crash_tags=["process-survives"], solver="z3", walllimit=600, timeout=3000, replay="schedule",
                  validate_runs=["H_C09_results(2,0,0)", "H_C09_results(2,1,1)"], veclen=200)]
 
 def _c10(tier, seed):
@@ -269,6 +272,7 @@ def _c11(tier, seed):
     q = tier == "quick"
     runs = ["H_C11_new_session()", "H_C11_rotation(1,1)", "H_C11_rotation(2,1)", "H_C11_rotation(1,2)", "H_C11_rotation(2,2)"]
     runs += ["H_C11_rotation_nobody_waiting(%d)" % k for k in range(3)]
+    runs += ["H_C11_rotation_hinted(1)", "H_C11_rotation_hinted(2)"]
     if not q:
         runs += ["H_C11_rotation(3,1)", "H_C11_rotation(3,2)"]
     return [dict(name="salt", pkg=".", harness=NET_HARNESS + ["harness/root/c16.go", "harness/root/c11.go"], runs=runs, solver="z3", walllimit=900, timeout=3000, replay="schedule",
